@@ -173,7 +173,15 @@ fn check_parent(run: &Run, pnode: &Node, cfg: &AlphaCfg, max_batch: usize) {
     let path = pnode.path_str();
     let all_txs: Vec<(String, Transaction, bool)> = tx_alphabet(&open, cfg);
     let actions: Vec<Option<ProposerAction>> = vec![None, Some(action_dest(5))];
-    let tasks: Vec<(String, Vec<Transaction>, Option<ProposerAction>)> = children(&open, cfg, max_batch).into_iter().flat_map(|(l, b)| actions.iter().map(move |a| (l.clone(), b.clone(), *a)).collect::<Vec<_>>()).collect();
+    let mut tasks: Vec<(String, Vec<Transaction>, Option<ProposerAction>)> = children(&open, cfg, max_batch).into_iter().flat_map(|(l, b)| actions.iter().map(move |a| (l.clone(), b.clone(), *a)).collect::<Vec<_>>()).collect();
+    // the strongest votes on the fee multiplier (blocks of at most one transaction)
+    let strong: Vec<(String, Vec<Transaction>, Option<ProposerAction>)> = tasks
+        .iter()
+        .filter(|(_, b, a)| b.len() <= 1 && a.is_some())
+        .take(4)
+        .flat_map(|(l, b, _)| [127i8, -128].into_iter().map(move |d| (format!("{}/delta={}", l, d), b.clone(), Some(ProposerAction { fee_multiplier_delta: d, reward_dest: addr_true() }))).collect::<Vec<_>>())
+        .collect();
+    tasks.extend(strong);
     tasks.par_iter().for_each(|(label, batch, act)| {
         {
             // a block built the way a proposer builds it - one transaction at a time - is honest too and must be accepted
@@ -271,8 +279,12 @@ fn check_parent(run: &Run, pnode: &Node, cfg: &AlphaCfg, max_batch: usize) {
                 None => acts.push(("action:none-to-some", Some(action_dest(0)))),
                 Some(a) => {
                     acts.push(("action:some-to-none", None));
-                    acts.push(("action:delta+1", Some(ProposerAction { fee_multiplier_delta: a.fee_multiplier_delta + 1, ..*a })));
-                    acts.push(("action:delta-1", Some(ProposerAction { fee_multiplier_delta: a.fee_multiplier_delta - 1, ..*a })));
+                    if let Some(d) = a.fee_multiplier_delta.checked_add(1) {
+                        acts.push(("action:delta+1", Some(ProposerAction { fee_multiplier_delta: d, ..*a })));
+                    }
+                    if let Some(d) = a.fee_multiplier_delta.checked_sub(1) {
+                        acts.push(("action:delta-1", Some(ProposerAction { fee_multiplier_delta: d, ..*a })));
+                    }
                     acts.push(("action:other-dest", Some(ProposerAction { reward_dest: addr_true(), ..*a })));
                 }
             }
@@ -323,6 +335,47 @@ pub fn run(run: &Run) {
         ccfg.stakes = true;
         ccfg.adversarial = true;
         parents.par_iter().for_each(|p| check_parent(run, p, &ccfg, if thorough { 3 } else { 2 }));
+    }
+    // a large honest block: a chain of 150 dependent payments, assembled one transaction at a time, must be accepted by its parent
+    // whatever order its transaction set is iterated in
+    for net in [NetID::Custom02, NetID::Custom08] {
+        let (_w, rootn) = root(net, 0, false);
+        let parent = match &rootn.real {
+            Real::Sealed(s) => s.clone(),
+            _ => continue,
+        };
+        let built = guard(|| {
+            let mut u = parent.next_unsealed();
+            let mut coin = melstructs::CoinID::zero_zero();
+            let mut txs = vec![];
+            for i in 0..150u32 {
+                let t = tx_t(melstructs::TxKind::Normal, vec![coin], vec![out_t(1_000_000_000, melstructs::Denom::Mel)], 0, i.to_be_bytes().to_vec());
+                u.apply_tx(&t).ok()?;
+                coin = t.output_coinid(0);
+                txs.push(t);
+            }
+            Some((u.seal(None), txs))
+        });
+        if let Ok(Some((child, txs))) = built {
+            let blk = child.to_block();
+            for round in 0..6 {
+                // the same block with its transaction set rebuilt (fresh hasher, rotated insertion order)
+                let mut b2 = blk.clone();
+                let mut set = std::collections::HashSet::with_hasher(Default::default());
+                for k in 0..txs.len() {
+                    set.insert(txs[(k + round * 37) % txs.len()].clone());
+                }
+                b2.transactions = set;
+                run.transition();
+                match guard(|| parent.apply_block(&b2).map(|s| s.header())) {
+                    Ok(Ok(h)) if h == blk.header => run.outcome("large-honest-block:accepted"),
+                    Ok(Ok(_)) => run.violation("C06", "large-honest-block/returned-header-differs".into(), format!("150-chain block on genesis[{:?}]", net), json!({"network": format!("{:?}", net), "chain": 150})),
+                    Ok(Err(e)) => run.violation("C06", "rejects-large-honest-block".into(), format!("a block of a 150-transaction payment chain built on genesis[{:?}] one transaction at a time is rejected by apply_block (round {}): {}", net, round, e), json!({"network": format!("{:?}", net), "chain": 150, "round": round})),
+                    Err(_) => run.outcome("large-honest-block:panic(reported under C09)"),
+                }
+                run.validated();
+            }
+        }
     }
     run.set("parents", json!(total_parents));
     run.set("networks", json!(["Custom02 (sparse tx tree)", "Custom08 (dense tx tree, TIP-908)", "Testnet (pre-TIP rules below 500)", "thorough: Custom02 with fees, Mainnet"]));
